@@ -6,7 +6,6 @@ package main
 
 import (
 	"bytes"
-	"os"
 	"fmt"
 	"math/big"
 	"regexp"
@@ -358,8 +357,7 @@ func diffTimes(got, want tvDoc) string {
 	return ""
 }
 
-func suiteTtml(R0 *runner, r *rng) {
-	R := &ttRunner{R0}
+func suiteTtml(R *runner, r *rng) {
 	R.rule("ttml: ground-truth documents (1..5 cues; 0..6 styles whose parent links form a forest, several styles sharing a parent, parents defined before or after their children; 0..4 regions with style references; inline tts:* attributes on styles, regions, paragraphs and spans incl. empty values and characters needing escapes; title, copyright, xml:lang among the five mapped languages (with and without subtags), others and none; frameRate in {absent,0,1,8,12,24,25,30,48,50,60,100,120}, tickRate in {absent,1,3,7,10,60,1000,44100,48000,90000,10^7,27*10^6}; 1..5 lines of 0..3 runs, empty lines first/middle/last, bare text and spans, text over a palette with & < > quotes, accents, CJK, non-BMP, NBSP/ideographic space, combining marks) x renderings (each boundary in any syntax that denotes it exactly: clock time with 0-3 fraction digits, clock time with frames, offsets in h/m/s/ms with decimal fractions, f, t; indentation none/spaces/tab between elements and around <br/>; <br/> between elements or inside the element when both sides are one run; three namespace-prefix schemes; attribute order/quoting, character references); oracle: the reader returns the ground truth, every boundary = the denoted instant when that is a whole number of ns and otherwise within 1 ns of it; the same documents as trees through the extracted Coq reader model; time expressions: boundary grids per syntax and unit, exhaustive 0.000s..9.999s, frame grids for 8 rates, tick grids for 10 rates, random, malformed strings (model only); writer: values from the ground truth (XML-legal text incl. tab, CR, leading/trailing blanks; nil metadata, nil inline styles, nil map entries, indent option absent/\"\"/tab/spaces/newline) decoded by an independent encoding/xml-based decoder and by the library's reader: same cues (times truncated to ms), styles, regions, title, copyright, language; tree of the output vs the Coq writer model; non-trivial = at least one style or two lines")
 	N := 700
 	if R.tier == "thorough" {
@@ -606,7 +604,7 @@ func suiteTtml(R0 *runner, r *rng) {
 			for j := range v.Items[i].Lines {
 				for k := range v.Items[i].Lines[j] {
 					if r.chance(1, 8) {
-						v.Items[i].Lines[j][k].Text = r.pick("\t", " lead", "trail ", "\ttab", "a\rb", "", "  ", "x ", " x", "]]>", "<![CDATA[", "&#10;") + v.Items[i].Lines[j][k].Text
+						v.Items[i].Lines[j][k].Text = r.pick("\t", " lead", "trail ", "\ttab", "a\rb", "", "  ", "x ", " x", "]]>", "<![CDATA[", "&#10;", "", "�", "\U0010ffff", "\u0085", " ", "퟿", "\r", " ") + v.Items[i].Lines[j][k].Text
 					}
 				}
 			}
@@ -791,15 +789,20 @@ var ttCorpus = []ttCorpusDoc{
 	{"root is not tt", `<ttx><body><div><p begin="1s" end="2s">x</p></div></body></ttx>`, nil},
 	{"nested div", ttWrap("", `<div><p begin="1s" end="2s">x</p></div>`), nil},
 	{"empty p, p with only blanks", ttWrap("", `<p begin="1s" end="2s"/><p begin="1s" end="2s">   </p><p begin="1s" end="2s"><span/></p>`), nil},
+	{"two heads, two metadata, nested markup in the title", `<tt xml:lang="fr-CA"><head><metadata><title>a<b>x</b>c</title><copyright>c1</copyright></metadata></head><head><metadata><title>second</title></metadata><styling><style id="s"/></styling></head><body><div><p begin="1s" end="2s" style="s">x</p></div></body></tt>`, nil},
+	{"integer attributes: blanks, sign, empty", `<tt frameRate=" 30 " tickRate=""><head><styling><style id="s" zIndex="+5"/><style id="t" zIndex=""/><style id="u" zIndex=" -3 "/></styling></head><body><div><p begin="30f" end="00:00:02:15">x</p></div></body></tt>`, nil},
+	{"bad zIndex on a span", ttWrap("", `<p begin="1s" end="2s"><span tts:zIndex="x">a</span></p>`), nil},
+	{"bad zIndex on a nested span is skipped", ttWrap("", `<p begin="1s" end="2s"><span>a<span tts:zIndex="x">b</span></span></p>`), nil},
+	{"bad frameRate", `<tt frameRate="abc"><body><div><p begin="1s" end="2s">x</p></div></body></tt>`, nil},
+	{"region with unknown style", ttWrap(`<head><layout><region xml:id="r" style="nope"/></layout></head>`, `<p begin="1s" end="2s">x</p>`), nil},
+	{"region and style tables, references everywhere", ttWrap(`<head><layout><region xml:id="r" style="s" tts:origin="1% 2%"/></layout><styling><style xml:id="s" tts:color="c"/></styling></head>`, `<p begin="1s" end="2s" region="r" style="s"><span style="s" tts:color="d">x</span></p>`), nil},
+	{"upper-case and prefixed br, br with content", ttWrap("", `<p begin="1s" end="2s">a<BR/>b<x:br xmlns:x="u">ignored</x:br>c<Br></Br><span>d<BR/>e</span></p>`), nil},
+	{"one-letter language, unknown language", `<tt xml:lang="e"><body><div><p begin="1s" end="2s">x</p></div></body></tt>`, nil},
+	{"text directly in div/body is ignored, p outside div is ignored", `<tt><body>t<p begin="1s" end="2s">no</p><div>u<p begin="1s" end="2s">yes</p>v</div></body></tt>`, nil},
+	{"style without id, empty references", ttWrap(`<head><styling><style tts:color="c"/></styling></head>`, `<p begin="1s" end="2s" style="" region="">x</p>`), nil},
+	{"several begin attributes, one malformed", `<tt xmlns:a="u1" xmlns:b="u2"><body><div><p a:begin="x" b:begin="2s" end="3s">x</p></div></body></tt>`, nil},
+	{"non-breaking and ideographic space at the start of bare text", ttWrap("", "<p begin=\"1s\" end=\"2s\">\u00a0a<br/>\n  \u3000b<span>\u00a0c</span></p>"), nil},
+	{"tab indentation, blank lines, trailing blanks on text lines", ttWrap("", "<p begin=\"1s\" end=\"2s\">\n\t\tfirst  \n\n\t\t<br/>\n\t\tsecond\t\n\t</p>"), nil},
 	{"duplicate attributes by local name", `<tt xmlns:a="u1" xmlns:b="u2"><body><div><p a:begin="1s" b:begin="2s" end="3s" a:color="x" b:color="y">x</p></div></body></tt>`, nil},
 }
 
-// bootstrap aid: VERIF_TTML_NOMODEL=1 runs the oracles without the model driver
-type ttRunner struct{ *runner }
-
-func (t *ttRunner) add(o *obs) {
-	if os.Getenv("VERIF_TTML_NOMODEL") != "" {
-		o.NoModel = true
-	}
-	t.runner.add(o)
-}
